@@ -115,6 +115,10 @@ int main(int argc, char** argv) {
         for (size_t t = 0; t < n; ++t) dm.push_back({(int)bi, 'T', t, 0, 0, 0});
         size_t lim = std::min(n, B.F.dataOffset + 512);
         for (size_t o = 0; o < lim; ++o) for (int v : BV) if ((unsigned char)B.bytes[o] != v) dm.push_back({(int)bi, 'B', o, 0, v, 0});
+        if (profile == "boundary") {   // structural bytes additionally take every power of two and its neighbours (length / count fields)
+            const int LV[] = {2, 3, 4, 7, 8, 9, 15, 16, 17, 31, 32, 33, 63, 64, 65, 126, 129, 254};
+            for (auto& sb : B.structural) for (int v : LV) if ((unsigned char)B.bytes[sb.first] != v) dm.push_back({(int)bi, 'B', sb.first, 0, v, 0});
+        }
         if (profile != "boundary") for (auto& sb : B.structural) for (int v = 0; v < 256; ++v) { bool isBV = false; for (int x : BV) if (x == v) isBV = true; if (!isBV && (unsigned char)B.bytes[sb.first] != v) dm.push_back({(int)bi, 'B', sb.first, 0, v, 0}); }
     }
     size_t singles = dm.size();
